@@ -79,19 +79,34 @@ def subsample(items, n, salt=""):
 
 # ----------------------------------------------------------------------------------
 # validation: records -> TLC (sharded) -> verdicts
-def validate(prop, name, module, records, nshards=16, timeout=3600, extra_env=None, xmx="3g"):
-    """records: list of dicts with an 'id'.  Returns (verdicts by id, summed stats)."""
+def validate(prop, name, module, records, nshards=16, timeout=3600, extra_env=None, xmx="3g",
+             group=None, rec_id=None, verdict_id=None, per_shard=200):
+    """records -> TLC trace spec (sharded over single-worker JVMs) -> verdicts by id.
+    group: function(record) -> key; records of one group stay together, in order (histories).
+    rec_id / verdict_id: functions giving the id of a record / of a verdict line."""
+    rec_id = rec_id or (lambda r: r["id"])
+    verdict_id = verdict_id or (lambda v: v["id"])
     d = tlcrun.fresh_dir(outdir(prop, "val_" + name))
     if not records:
         return {}, {"generated": 0, "distinct": 0, "wall_s": 0.0}
-    nshards = max(1, min(nshards, (len(records) + 199) // 200))
+    nshards = max(1, min(nshards, (len(records) + per_shard - 1) // per_shard))
+    parts = [[] for _ in range(nshards)]
+    if group is None:
+        for i, r in enumerate(records):
+            parts[i % nshards].append(r)
+    else:
+        order = {}
+        for r in records:
+            k = group(r)
+            if k not in order:
+                order[k] = len(order)
+            parts[order[k] % nshards].append(r)
     cfg = os.path.join(d, "trace.cfg")
     tlcrun.write_cfg(cfg, postcondition="Accepted")
     envs = []
     for i in range(nshards):
-        part = records[i::nshards]
         inf = os.path.join(d, f"in{i}.ndjson")
-        codec.write_ndjson(inf, part)
+        codec.write_ndjson(inf, parts[i])
         env = {"IN_FILE": inf, "OUT_FILE": os.path.join(d, f"verdict{i}.ndjson")}
         if extra_env:
             env.update(extra_env)
@@ -102,8 +117,8 @@ def validate(prop, name, module, records, nshards=16, timeout=3600, extra_env=No
         vf = os.path.join(d, f"verdict{i}.ndjson")
         if os.path.exists(vf):
             for v in codec.load_ndjson(vf):
-                verdicts[v["id"]] = v
-    missing = [r["id"] for r in records if r["id"] not in verdicts]
+                verdicts[verdict_id(v)] = v
+    missing = [rec_id(r) for r in records if rec_id(r) not in verdicts]
     if missing:
         raise MachineryError(f"{module}: {len(missing)} records have no verdict (first id {missing[0]})")
     stats = {
@@ -145,6 +160,8 @@ class Report:
         self.rule = ""
         self.exhaustive = False
         self.findings = load_findings(prop)
+        import shutil
+        shutil.rmtree(os.path.join(OUT_ROOT, "replay", prop), ignore_errors=True)
 
     def add_tlc(self, st):
         self.states += int(st.get("distinct", 0))
